@@ -13,6 +13,7 @@ and API functions with confused argument types raise Python exceptions; forged p
 rejected or harmless.  VERIF_ASAN=1 (thorough tier sets it) runs the forked parts against an
 AddressSanitizer + UBSan build of the working tree as well.
 """
+import gc
 import itertools
 import os
 import pickle
@@ -21,6 +22,7 @@ import signal
 import struct
 import sys
 import time
+import weakref
 from collections import OrderedDict, defaultdict, deque, namedtuple
 
 import optree
@@ -420,6 +422,66 @@ def mut_run(item):
     return r
 
 
+class USite:
+    """custom node of one child whose unflatten function runs the script's next mutation"""
+    fire = None
+
+    def __init__(self, child):
+        self.child = child
+
+
+def unfl_mut_run(item):
+    n, total, script = item
+    # the treespec: n leaves, each followed (in post-order) by the rebuild of its one-child custom node
+    spec = optree.tree_structure([USite(0) for _ in range(n)], namespace='c16s')
+    leaves = [Lf(i) for i in range(total)]
+    extra = Lf(7)
+    calls = [0]
+
+    def fire():
+        k = calls[0]
+        calls[0] += 1
+        if k < len(script):
+            apply_mut(script[k], leaves, extra)
+    USite.fire = fire
+    try:
+        r = attempt(lambda: spec.unflatten(leaves))
+    finally:
+        USite.fire = None
+    if r[0] == 0:
+        got = optree.tree_leaves(r[1], namespace='c16s')
+        if not all(type(x) is Lf for x in got):
+            return ('inconsistent', 'a leaf of the result is not one of the objects handed in')
+        return (0, tuple(x.i for x in got))
+    return r
+
+
+def run_unflatten_scripts(res, tier):
+    optree.register_pytree_node(USite, lambda u: ((u.child,), None),
+                                lambda md, ch: (USite.fire and USite.fire(), USite(ch[0]))[1], namespace='c16s')
+    maxn = 4 if tier == 'quick' else 5
+    items, cmds = [], []
+    for n in range(0, maxn + 1):
+        for total in sorted({max(0, n - 1), n, n + 1}):
+            for script in itertools.product(MUTS, repeat=n):
+                items.append((n, total, script))
+                cmds.append((16, 2, tuple(script), tuple(range(total)), n))
+    outs = progress_forked(items, unfl_mut_run, 30, res, 'list of leaves mutated by an unflatten function')
+    mod = runner.run_model(cmds)
+    for it, c, o, m in zip(items, cmds, outs, mod):
+        res.evaluations += 1
+        if o is None or (isinstance(o, tuple) and o and o[0] == 'died'):
+            continue
+        if isinstance(o, tuple) and o and o[0] == 'inconsistent':
+            res.fail('unflatten of leaves mutated by a callback returned an inconsistent result', repr(it), o[1])
+            continue
+        o = tuple(o) if isinstance(o, (list, tuple)) else o
+        res.compare(c, o, m, 'cmd_mut_unflatten')
+        res.count('unfl_script_%s' % ('ok' if o[0] == 0 else 'ValueError' if o == (1, 1) else 'other'))
+    optree.unregister_pytree_node(USite, namespace='c16s')
+    res.notes.append(f'unflatten mutation scripts: all {len(MUTS)}^n scripts for n <= {maxn} leaves, lists of n-1 / n / n+1 leaves')
+
+
 def run_mutation_correspondence(res, tier):
     maxn = 4 if tier == 'quick' else 5
     items, cmds = [], []
@@ -647,6 +709,165 @@ def run_wide_matrix(res, tier):
     res.notes.append(f'mutation matrix: {len(items)} (container, callback, position, mutation, traversal) cells, each in a forked child stream')
 
 
+# ---------------------------------------------------------------- mutation of the leaves handed to unflatten
+class ULf:
+    """leaf for the unflatten matrix: weak-referenceable, so that a freed leaf can be told from a live one"""
+    __slots__ = ('i', '__weakref__')
+
+    def __init__(self, i):
+        self.i = i
+
+
+class UNode:
+    """custom node whose unflatten function is the callback"""
+    fire = None
+
+    def __init__(self, children, tag):
+        self.children = children
+        self.tag = tag
+
+
+UPt = namedtuple('UPt', ['a', 'b'])
+
+
+class UPtSub(UPt):
+    """namedtuple subclass whose constructor is the callback"""
+    fire = None
+    __slots__ = ()
+
+    def __new__(cls, a, b):
+        if UPtSub.fire:
+            UPtSub.fire('namedtuple __new__')
+        return super().__new__(cls, a, b)
+
+
+UNFL_CALLBACKS = ['unflatten_func', 'namedtuple __new__', 'key hash']
+UNFL_MUTS = ['del_tail', 'del_first', 'clear', 'append', 'grow_many', 'replace_rest', 'clear_then_allocate']
+UNFL_LEAVES = ['list', 'list subclass', 'deque', 'iterator over list', 'tuple copy (control)']
+UNFL_ENTRY = ['treespec.unflatten', 'tree_unflatten']
+
+
+class _LSub(list):
+    pass
+
+
+def unfl_tree(cb):
+    """a tree with three callback sites in post-order, leaves before / between / after them"""
+    def site(x, y, tag):
+        if cb == 'unflatten_func':
+            return UNode([x, y], tag)
+        if cb == 'namedtuple __new__':
+            return UPtSub(x, y)
+        return {MKey(tag): x, MKey(tag + 10): y}
+    L = [ULf(i) for i in range(9)]
+    return [L[0], site(L[1], L[2], 0), (L[3], site(L[4], [L[5]], 1)), L[6], site(L[7], L[8], 2)], L
+
+
+def unfl_run(item):
+    cb, site_no, mut, lkind, entry, keep_alive = item
+    tree, L = unfl_tree(cb)
+    spec = optree.tree_structure(tree, namespace='c16u')
+    n = spec.num_leaves
+    orig_ids = [id(x) for x in L]
+    wrs = [weakref.ref(x) for x in L]
+    base = list(L)
+    leaves = {'list': lambda: base, 'list subclass': lambda: _LSub(base), 'deque': lambda: deque(base),
+              'iterator over list': lambda: iter(base), 'tuple copy (control)': lambda: tuple(base)}[lkind]()
+    cont = base if lkind in ('list', 'iterator over list', 'tuple copy (control)') else leaves
+    keep = list(L) if keep_alive else None
+    del L, tree
+    state = {'n': 0, 'fired': False, 'new': []}
+
+    def fire(_what):
+        if state['fired']:
+            return
+        if state['n'] == site_no:
+            state['fired'] = True
+            if mut == 'del_tail':
+                while len(cont) > 3:
+                    cont.pop()
+            elif mut == 'del_first':
+                del cont[0]
+            elif mut == 'clear':
+                cont.clear()
+            elif mut == 'append':
+                cont.append(ULf(100))
+            elif mut == 'grow_many':
+                cont.extend(ULf(1000 + i) for i in range(3000))
+            elif mut == 'replace_rest':
+                for j in range(len(cont)):
+                    cont[j] = ULf(200 + j)
+            elif mut == 'clear_then_allocate':
+                cont.clear()
+                gc.collect()
+                state['new'] = [ULf(-1 - i) for i in range(64)] + [object() for _ in range(64)]
+        state['n'] += 1
+
+    if cb == 'unflatten_func':
+        UNode.fire = fire
+    elif cb == 'namedtuple __new__':
+        UPtSub.fire = fire
+    else:
+        seen = set()
+
+        def hook(which, key):
+            # one event per dict node: the first hash of its first key while the dict is rebuilt
+            if which == 'hash' and key.v < 10 and key.v not in seen:
+                seen.add(key.v)
+                fire('key hash')
+        MKey.hook = hook
+    try:
+        if entry == 'treespec.unflatten':
+            out = spec.unflatten(leaves)
+        else:
+            out = optree.tree_unflatten(spec, leaves)
+    finally:
+        UNode.fire = UPtSub.fire = MKey.hook = None
+    # success: every leaf of the result must be a live object that is one of the originals or one the
+    # mutation put into the container, and the container must hold exactly as many leaves as were used
+    got = optree.tree_leaves(out, namespace='c16u')
+    if len(got) != n:
+        return ('inconsistent', f'result has {len(got)} leaves, treespec {n}')
+    for j, x in enumerate(got):
+        if type(x) is not ULf:
+            return ('inconsistent', f'leaf {j} of the result is a {type(x).__name__}, not a leaf that was handed in')
+        if x.i < 0:
+            return ('inconsistent', f'leaf {j} of the result is an object allocated after the container was cleared')
+        if 0 <= x.i < 9 and (id(x) != orig_ids[x.i] or wrs[x.i]() is not x):
+            return ('inconsistent', f'leaf {j} of the result is not the live original it claims to be')
+    # the callback at site k runs after 3 * (k + 1) of the 9 leaves have been taken: when leaves were still to be
+    # taken, a container that no longer holds exactly n elements cannot have supplied them
+    if lkind in ('list', 'list subclass') and state['fired'] and site_no < 2 and len(cont) != n:
+        return ('inconsistent', f'unflatten succeeded although the leaves container now holds {len(cont)} elements, treespec {n}')
+    return ('ok', n)
+
+
+def run_unflatten_matrix(res, tier):
+    optree.register_pytree_node(UNode, lambda u: (u.children, u.tag), lambda tag, ch: (UNode.fire and UNode.fire('unflatten_func'), UNode(list(ch), tag))[1],
+                                namespace='c16u')
+    items = []
+    for cb in UNFL_CALLBACKS:
+        for site_no in range(3):
+            for mut in UNFL_MUTS:
+                for lkind in UNFL_LEAVES:
+                    for entry in UNFL_ENTRY:
+                        for keep_alive in (True, False):
+                            items.append((cb, site_no, mut, lkind, entry, keep_alive))
+    outs = progress_forked(items, unfl_run, 30, res, 'unflatten mutation matrix')
+    for it, o in zip(items, outs):
+        res.evaluations += 1
+        if o is None:
+            continue
+        tag = o[0]
+        res.count('unfl_%s' % tag)
+        if tag == 'inconsistent':
+            res.fail('unflatten of leaves mutated by a callback returned an inconsistent result', repr(it), o[1])
+        elif tag == 'raised' and o[1] in ('SystemError', 'InternalError'):
+            res.fail('unflatten of leaves mutated by a callback raised an internal error', repr(it), o)
+    optree.unregister_pytree_node(UNode, namespace='c16u')
+    res.notes.append(f'unflatten mutation matrix: {len(items)} (callback, site, mutation, leaves container, entry point, leaves kept alive) cells')
+
+
 # ---------------------------------------------------------------- argument confusion
 def arg_pool():
     spec = optree.tree_structure({'a': (1, [2, None]), 'b': deque([3])})
@@ -830,6 +1051,8 @@ def run(res, tier, seed):
         for name, f in (('selfref', lambda: run_selfref(res)),
                         ('mutation scripts', lambda: run_mutation_correspondence(res, 'quick')),
                         ('mutation matrix', lambda: run_wide_matrix(res, 'quick')),
+                        ('unflatten mutation matrix', lambda: run_unflatten_matrix(res, 'quick')),
+                        ('unflatten mutation scripts', lambda: run_unflatten_scripts(res, 'quick')),
                         ('treespec arguments', lambda: run_spec_args(res, 'quick', seed)),
                         ('argument confusion', lambda: run_confusion(res, 'quick', seed))):
             t0 = time.time()
@@ -839,6 +1062,8 @@ def run(res, tier, seed):
     for name, f in (('depth', lambda: run_depth(res, tier)), ('selfref', lambda: run_selfref(res)),
                     ('mutation scripts', lambda: run_mutation_correspondence(res, tier)),
                     ('mutation matrix', lambda: run_wide_matrix(res, tier)),
+                    ('unflatten mutation matrix', lambda: run_unflatten_matrix(res, tier)),
+                    ('unflatten mutation scripts', lambda: run_unflatten_scripts(res, tier)),
                     ('treespec arguments', lambda: run_spec_args(res, tier, seed)),
                     ('argument confusion', lambda: run_confusion(res, tier, seed))):
         t0 = time.time()
